@@ -142,3 +142,205 @@ func Referrers(v ssa.Value) []ssa.Instruction {
 func StaticCalleeOf(ci ssa.CallInstruction) *ssa.Function {
 	return ci.Common().StaticCallee()
 }
+
+// FieldVarOfAddr returns the struct field a FieldAddr / Field instruction selects.
+func FieldVarOfAddr(v ssa.Value) *types.Var {
+	switch fa := v.(type) {
+	case *ssa.FieldAddr:
+		t := fa.X.Type()
+		if p, ok := t.Underlying().(*types.Pointer); ok {
+			t = p.Elem()
+		}
+		if st, ok := t.Underlying().(*types.Struct); ok && fa.Field < st.NumFields() {
+			return st.Field(fa.Field)
+		}
+	case *ssa.Field:
+		if st, ok := fa.X.Type().Underlying().(*types.Struct); ok && fa.Field < st.NumFields() {
+			return st.Field(fa.Field)
+		}
+	}
+	return nil
+}
+
+// LoadOfField reports whether v is a load (*addr) of the given field and
+// returns the FieldAddr.
+func LoadOfField(v ssa.Value, f *types.Var) (*ssa.FieldAddr, bool) {
+	u, ok := v.(*ssa.UnOp)
+	if !ok || u.Op != token.MUL {
+		return nil, false
+	}
+	fa, ok := u.X.(*ssa.FieldAddr)
+	if !ok || FieldVarOfAddr(fa) != f {
+		return nil, false
+	}
+	return fa, true
+}
+
+// SSAFact is a branch condition value known on an edge or at a block.
+type SSAFact struct {
+	Cond ssa.Value
+	Val  bool
+}
+
+// FactsAtBlock returns branch facts that hold whenever b executes: for every
+// strict dominator d ending in an If, if one successor s of d has d as its
+// only predecessor and dominates b, the corresponding polarity holds.
+func FactsAtBlock(b *ssa.BasicBlock) []SSAFact {
+	var out []SSAFact
+	for d := b.Idom(); d != nil; d = d.Idom() {
+		ifi, ok := d.Instrs[len(d.Instrs)-1].(*ssa.If)
+		if !ok {
+			continue
+		}
+		t, f := d.Succs[0], d.Succs[1]
+		if t == f {
+			continue
+		}
+		td := len(t.Preds) == 1 && t.Dominates(b)
+		fd := len(f.Preds) == 1 && f.Dominates(b)
+		if td && !fd {
+			out = append(out, SSAFact{ifi.Cond, true})
+		} else if fd && !td {
+			out = append(out, SSAFact{ifi.Cond, false})
+		}
+	}
+	return out
+}
+
+// FactsOnEdge returns the facts holding when control flows pred -> succ.
+func FactsOnEdge(pred, succ *ssa.BasicBlock) []SSAFact {
+	out := FactsAtBlock(pred)
+	if ifi, ok := pred.Instrs[len(pred.Instrs)-1].(*ssa.If); ok && pred.Succs[0] != pred.Succs[1] {
+		if pred.Succs[0] == succ {
+			out = append(out, SSAFact{ifi.Cond, true})
+		} else if pred.Succs[1] == succ {
+			out = append(out, SSAFact{ifi.Cond, false})
+		}
+	}
+	return out
+}
+
+// CmpNorm normalises a comparison fact to "x OP y holds" with OP in
+// {<, <=, ==, !=}.  Returns ok=false when the fact is not a comparison.
+func CmpNorm(f SSAFact) (x, y ssa.Value, op token.Token, ok bool) {
+	b, isBin := f.Cond.(*ssa.BinOp)
+	if !isBin {
+		return nil, nil, 0, false
+	}
+	op = b.Op
+	x, y = b.X, b.Y
+	if !f.Val {
+		switch op {
+		case token.LSS:
+			op = token.GEQ
+		case token.LEQ:
+			op = token.GTR
+		case token.GTR:
+			op = token.LEQ
+		case token.GEQ:
+			op = token.LSS
+		case token.EQL:
+			op = token.NEQ
+		case token.NEQ:
+			op = token.EQL
+		default:
+			return nil, nil, 0, false
+		}
+	}
+	switch op {
+	case token.GTR:
+		return y, x, token.LSS, true
+	case token.GEQ:
+		return y, x, token.LEQ, true
+	case token.LSS, token.LEQ, token.EQL, token.NEQ:
+		return x, y, op, true
+	}
+	return nil, nil, 0, false
+}
+
+// IntConst returns the integer value of an SSA constant.
+func IntConst(v ssa.Value) (int64, bool) {
+	c, ok := v.(*ssa.Const)
+	if !ok || c.Value == nil {
+		return 0, false
+	}
+	if b, ok := c.Type().Underlying().(*types.Basic); !ok || b.Info()&types.IsInteger == 0 {
+		return 0, false
+	}
+	return c.Int64(), true
+}
+
+// SameValue reports structural equality of two pure SSA value trees
+// (constants, parameters, loads of the same field address chain, binary and
+// unary operators, len/cap).  go/ssa does no CSE, so two occurrences of
+// `newLen - oldLen` are different instructions with equal structure.
+func SameValue(a, b ssa.Value) bool {
+	return sameValue(a, b, 0)
+}
+
+func sameValue(a, b ssa.Value, depth int) bool {
+	if a == b {
+		return true
+	}
+	if depth > 6 || a == nil || b == nil {
+		return false
+	}
+	switch x := a.(type) {
+	case *ssa.Const:
+		y, ok := b.(*ssa.Const)
+		return ok && x.Value != nil && y.Value != nil && x.Value.ExactString() == y.Value.ExactString()
+	case *ssa.BinOp:
+		y, ok := b.(*ssa.BinOp)
+		return ok && x.Op == y.Op && sameValue(x.X, y.X, depth+1) && sameValue(x.Y, y.Y, depth+1)
+	case *ssa.UnOp:
+		y, ok := b.(*ssa.UnOp)
+		if !ok || x.Op != y.Op {
+			return false
+		}
+		if x.Op == token.MUL {
+			// two loads are the same only if no store could intervene; we only
+			// accept loads of parameters' pointees / field chains in straight
+			// code where the caller has checked that.  Be conservative: same
+			// address value required.
+			return sameValue(x.X, y.X, depth+1) && x.Block() == y.Block()
+		}
+		return sameValue(x.X, y.X, depth+1)
+	case *ssa.FieldAddr:
+		y, ok := b.(*ssa.FieldAddr)
+		return ok && x.Field == y.Field && sameValue(x.X, y.X, depth+1)
+	case *ssa.Call:
+		y, ok := b.(*ssa.Call)
+		if !ok {
+			return false
+		}
+		bx, ok1 := x.Call.Value.(*ssa.Builtin)
+		by, ok2 := y.Call.Value.(*ssa.Builtin)
+		if ok1 && ok2 && bx.Name() == by.Name() && (bx.Name() == "len" || bx.Name() == "cap") && len(x.Call.Args) == 1 && len(y.Call.Args) == 1 {
+			return sameValue(x.Call.Args[0], y.Call.Args[0], depth+1)
+		}
+	}
+	return false
+}
+
+// ForwardSlice returns all instructions data-dependent on v (through
+// operands; phis included), within v's function.
+func ForwardSlice(v ssa.Value) map[ssa.Instruction]bool {
+	out := map[ssa.Instruction]bool{}
+	var work []ssa.Value
+	work = append(work, v)
+	seen := map[ssa.Value]bool{v: true}
+	for len(work) > 0 {
+		x := work[len(work)-1]
+		work = work[:len(work)-1]
+		for _, r := range Referrers(x) {
+			if !out[r] {
+				out[r] = true
+			}
+			if rv, ok := r.(ssa.Value); ok && !seen[rv] {
+				seen[rv] = true
+				work = append(work, rv)
+			}
+		}
+	}
+	return out
+}
